@@ -95,6 +95,10 @@ func convertAttrToField(attr slog.Attr) zapcore.Field {
 	case slog.KindUint64:
 		return zap.Uint64(attr.Key, attr.Value.Uint64())
 	case slog.KindGroup:
+		if len(attr.Value.Group()) == 0 {
+			// A group without attributes is omitted, whatever its key.
+			return zap.Skip()
+		}
 		if attr.Key == "" {
 			// Inlines recursively.
 			return zap.Inline(groupObject(attr.Value.Group()))
@@ -222,6 +226,10 @@ func (h *Handler) WithAttrs(attrs []slog.Attr) slog.Handler {
 // WithGroup returns a new Handler with the given group appended to
 // the receiver's existing groups.
 func (h *Handler) WithGroup(group string) slog.Handler {
+	if group == "" {
+		// An empty name opens no group.
+		return h
+	}
 	newGroups := make([]string, len(h.groups)+1)
 	copy(newGroups, h.groups)
 	newGroups[len(h.groups)] = group
